@@ -199,13 +199,16 @@ def divmod(P, D, reverse=False):
     Q = []
     R = P
     for k in range(n):
-        if not R:
-            break
-        t = R[-1] / ld
+        # D[k:] is D * x ** (n - 1 - k), its degree is len(P) - 1 - k
+        if len(R) == len(P) - k:
+            t = R[-1] / ld
+            R = add(R, multiply(-t, D[k:], reverse=reverse), reverse=reverse)
+            while R and R[-1] == 0:
+                R.pop()
+        else:
+            # the remainder has no term of this degree
+            t = 0
         Q.insert(0, t)
-        R = add(R, multiply(-t, D[k:], reverse=reverse), reverse=reverse)
-        while R and R[-1] == 0:
-            R.pop()
     while Q and Q[-1] == 0:
         Q.pop()
     return Q, R
